@@ -1,5 +1,73 @@
-/- Oracle driver for C19 (stub: replaced when the property's model is built). -/
+/- Oracle for C19: runs a script on the Lean models of list.Seq and slice.Seq (Golem.Model.ISeq,
+the definitions the theorems of Props/C19 are about) and prints both observation lists and the
+result of re-reading every older register after every operation.
+
+line in : ops separated by blanks — `N:1,2,3` (`N:` = New()), `C:x:r`, `T:r`, `H:r`, `L:r`, `E:r`, `F:r`
+line out: `<list observations> | <slice observations> | persist=ok`
+  observation: `[e1,e2]/len` (constructor: elements and reported Length), `v<a>` (Head, Fold),
+  `n<k>` (Length), `true|false` (IsEmpty), `panic`, `bad-reg` (the last two end the script). -/
+import Golem.Model.ISeq
 import Golem.Driver.Util
 namespace Golem.Driver.C19
-def main : IO Unit := IO.eprintln "oracle: no driver for C19 yet"
+open Golem.Model.ISeq Golem.Driver
+
+/-- The monoid the harness uses: Empty = 7, Combine(a, b) = (31a + b) mod 1000003
+(neither commutative nor associative: order *and* grouping of the fold are visible). -/
+def M31 : Monoid Int := ⟨7, fun a b => (a * 31 + b) % 1000003⟩
+
+def slack (n : Nat) : Nat := n % 3
+
+def parseOp (w : String) : Option (Op Int) :=
+  match w.splitOn ":" with
+  | ["N", ""] => some (.new [])
+  | ["N", xs] => (ints (xs.splitOn ",")).map .new
+  | ["C", x, r] => do let x ← x.toInt?; let r ← r.toNat?; pure (.cons x r)
+  | ["T", r] => r.toNat?.map .tail
+  | ["H", r] => r.toNat?.map .head
+  | ["L", r] => r.toNat?.map .length
+  | ["E", r] => r.toNat?.map .isEmpty
+  | ["F", r] => r.toNat?.map .fold
+  | _ => none
+
+def showObs : Obs Int → String
+  | .seq xs n => "[" ++ ",".intercalate (xs.map toString) ++ "]/" ++ toString n
+  | .val a => "v" ++ toString a
+  | .int n => "n" ++ toString n
+  | .bool b => if b then "true" else "false"
+  | .panic => "panic"
+  | .badReg => "bad-reg"
+
+def showRun (os : List (Obs Int)) : String := " ".intercalate (os.map showObs)
+
+/-- After every operation: every older register is the same value with the same elements. -/
+def persistL : List (LSeq Int) → List (Op Int) → Bool
+  | _, [] => true
+  | regs, op :: rest =>
+    match stepL M31 regs op with
+    | .error _ => true
+    | .ok (regs', _) =>
+      ((List.range regs.length).all fun i =>
+        match regs[i]?, regs'[i]? with
+        | some a, some b => L.elems a == L.elems b && a.len == b.len
+        | _, _ => false) && persistL regs' rest
+
+def persistS : SState Int → List (Op Int) → Bool
+  | _, [] => true
+  | st, op :: rest =>
+    match stepS slack M31 st op with
+    | .error _ => true
+    | .ok (st', _) =>
+      ((List.range st.regs.length).all fun i =>
+        match st.regs[i]?, st'.regs[i]? with
+        | some a, some b => a == b && S.elems st.heap a == S.elems st'.heap b
+        | _, _ => false) && persistS st' rest
+
+def step (line : String) : String :=
+  match (words line).mapM parseOp with
+  | none => "bad-op"
+  | some sc =>
+    let p := persistL [] sc && persistS ⟨[], []⟩ sc
+    s!"{showRun (runL M31 sc)} | {showRun (runS slack M31 sc)} | persist={if p then "ok" else "FAIL"}"
+
+def main : IO Unit := eachLine step
 end Golem.Driver.C19
